@@ -719,6 +719,7 @@ def run_case(case, acc, tier="quick"):
         except Exception as e:
             problems = []
             acc.label("container:validator-raised:%s" % type(e).__name__)
+        labels.append("container:validated-by-C04")
         for p in problems[:3]:
             acc.fail("container", "invalid:" + p.split(":")[0][:40], p, case)
 
@@ -1004,6 +1005,15 @@ def shape_probes(ctx, case, res, acc, rnd, hb1, new2old, old2new, R, Ruvs, locs,
                     raise
                 except Exception as e:
                     raise HarnessError("shaping failed for %s %r: %r" % (ctx.fid, item, e))
+                acc.label("probe:" + kind)
+                if seen0 and max(seen0) >= len(names):
+                    acc.exclude("probe: a rule of the original font produces a glyph id beyond numGlyphs")
+                    continue
+                if not closure:
+                    if not seen0 <= gsubed:
+                        acc.label("probe:skipped-no-closure-leaves-glyph-set")
+                        continue
+                    acc.label("probe:no-closure-compared")
                 # HarfBuzz picks script / language system per table by tag presence; the subsetter drops GPOS script records and
                 # language systems that became empty, after which HarfBuzz falls back to DFLT / the default language system (or, in
                 # the Hebrew shaper, stops using GPOS): recorded as a finding class and excluded (see sensitivity/C07.md)
@@ -1029,15 +1039,6 @@ def shape_probes(ctx, case, res, acc, rnd, hb1, new2old, old2new, R, Ruvs, locs,
                         if skip not in ex or (script is None and "script=None" not in ex[skip]):
                             ex[skip] = "%s %s %r features=%s script=%s lang=%s dir=%s opts=%s req=%s: %s" % (ctx.fid, kind, item, _fmt_feats(feats), script, language, direction, case["opts"], short(case["req"], 200), dd)
                     continue
-                acc.label("probe:" + kind)
-                if seen0 and max(seen0) >= len(names):
-                    acc.exclude("probe: a rule of the original font produces a glyph id beyond numGlyphs")
-                    continue
-                if not closure:
-                    if not seen0 <= gsubed:
-                        acc.label("probe:skipped-no-closure-leaves-glyph-set")
-                        continue
-                    acc.label("probe:no-closure-compared")
                 f = _fired(hbr if kind == "text" else hb0, r0, text=item if kind == "text" else None, gids=None if kind == "text" else g0)
                 if f:
                     fired_any = True
